@@ -127,10 +127,14 @@ type Tuple struct {
 	Sev  int
 	Pkg  string
 	Sub  string // tracer submissions: the collected lines before the main line, "SEV text@origin-package|…"
+	Site string // kind of call site (see SiteOfLine), "" when not told apart
 }
 
 func (t Tuple) String() string {
 	s := fmt.Sprintf("%s %s from %s", t.Text, sevName(t.Sev), t.Pkg)
+	if t.Site != "" {
+		s += " (call site " + t.Site + ")"
+	}
 	if t.Sub != "" {
 		s += " carrying [" + t.Sub + "]"
 	}
@@ -181,7 +185,7 @@ func (e *expectation) appendLine(l Line, times int, w *window, phase int) {
 	}
 	for k := 0; k < times; k++ {
 		p := len(e.items)
-		e.items = append(e.items, item{tup: Tuple{Text: l.Text, Sev: l.Sev, Pkg: l.Pkg}, may: off, next: p + 1, skip: p + 1, phase: phase, win: w})
+		e.items = append(e.items, item{tup: Tuple{Text: l.Text, Sev: l.Sev, Pkg: l.Pkg, Site: l.Site()}, may: off, next: p + 1, skip: p + 1, phase: phase, win: w})
 	}
 }
 
@@ -458,6 +462,11 @@ func Check(s *Scenario, res *Result) *Report {
 			continue
 		}
 		tup := Tuple{Text: w.Text, Sev: w.Sev, Pkg: pkgOfFile(w.File)}
+		if len(w.Trace) == 0 && SiteOfLine != nil {
+			if st := SiteOfLine[w.Line]; st == "p" || st == "f" || st == "v" {
+				tup.Site = st
+			}
+		}
 		if len(w.Trace) > 0 {
 			rep.TracerWrites++
 			var sub []string
